@@ -18,6 +18,8 @@ THOROUGH_SHARDS = 16
 # parameters whose Darwin prototype is narrower than a register and that the tool shows as such (the only ones on the
 # unchanged tree): semaphore_timedwait_trap(mach_port_name_t wait_name, unsigned int sec, clock_res_t nsec)
 NARROW_PARAMETERS = {('MSC_semaphore_timedwait_trap', 1): 32}
+WORD_BOUNDARIES = (0, 1, 0x7f, 0x80, 0xff, 0x7fff, 0x8000, 0xffff, (1 << 31) - 1, 1 << 31, (1 << 31) + 0x1234, (1 << 32) - 1,
+                   1 << 32, (1 << 32) + 0x1234, (1 << 63) - 1, 1 << 63, (1 << 64) - 1)
 MARK = [b'/PMa/x', b'/PMb/y', b'/PMc/z', b'/PMd/w', b'/PMe/v', b'/PMf/u', b'/PMg/t']
 
 
@@ -120,6 +122,38 @@ def check_decoder(res, ctx, rng, name):
                               f'{ends[0]}: {text0!r}', case)
                 return
             res.count('numeric_tokens_not_a_plain_rendering')
+        # (1b) boundary values of the word itself (the sentinels above are all >= 2^62): a parameter that shows a number
+        # shows its own word's full 64-bit value also at 0, around 2^31 / 2^32 and at the ends of the range
+        if k_iter < ctx.pick(2, 6):
+            for j in range(min(4, len(tokens0))):
+                if j in enums or ('S', j) in domain.TABLE.get(name, {}) or render.numeric_value(tokens0[j]) is None:
+                    continue
+                for b in WORD_BOUNDARIES:
+                    s1 = list(start)
+                    s1[j] = b
+                    try:
+                        t1 = render_outer(name, s1, end, lookups)
+                    except Exception as x:
+                        res.violation(f'c09-raises-{core.exc_name(x)}', f'{name}: {x!r} on start={s1}', dict(case, start=s1))
+                        return
+                    sc1 = render.split_call(t1) if t1 else None
+                    if sc1 is None or len(sc1[1]) != len(tokens0):
+                        continue
+                    v = render.numeric_value(sc1[1][j])
+                    res.count('boundary_words_checked')
+                    if v is None or v in {b, b - (1 << 64) if b >> 63 else b}:
+                        continue
+                    if (name, j) in NARROW_PARAMETERS and v == b & ((1 << NARROW_PARAMETERS[(name, j)]) - 1):
+                        continue
+                    if v in render.renderings(b):
+                        res.violation('c09-parameter-truncated', f'{name}: parameter {j} shows {sc1[1][j]} for the recorded '
+                                      f'argument {hex(b)} (= {b}): only a narrower reading of the word: {t1!r}',
+                                      dict(case, start=s1))
+                        return
+                    if v == render.numeric_value(tokens0[j]):
+                        res.violation('c09-parameter-ignores-its-word', f'{name}: parameter {j} stays {tokens0[j]} when START '
+                                      f'word {j} becomes {hex(b)}', dict(case, start=s1))
+                        return
         # (2) single-word replacement: position k may react to word k only (numeric tokens), and must react to it
         for j in range(4):
             s2 = replace_word(rng, name, start, j)
@@ -225,6 +259,7 @@ def run(ctx):
     res.require('single_word_replacements', 100)
     res.require('decoders_checked', 20)
     res.require('stream_windows_one_thread', 20)
+    res.require('boundary_words_checked', 200)
     res.require('file_windows_v3', 20)
     return res
 
